@@ -6,7 +6,7 @@
    of SynchronousMemory (one) and DualPortSynchronousMemory (two), as resolved Verilog (matched syntactically per generated design).
    The simulator side is the REGENERATED SynchronousMemory_clock / DualPortSynchronousMemory_clock (Gen/Seq.v). *)
 From V Require Import Base.Bits Gen.WireOps Gen.Helpers Gen.Prims Gen.Seq Model.VSyntax Model.VSem Model.Inline Model.C01Mem
-  Model.SimKernel Model.Trace Model.C01Prim Model.C01Seq Proofs.C01.InlineSound Proofs.C01.MemSound Proofs.C01.SeqG4 Proofs.C01.MemExamples Proofs.C01.AsyncMem.
+  Model.SimKernel Model.Trace Model.C01Prim Model.C01Seq Proofs.C01.InlineSound Proofs.C01.MemSound Proofs.C01.SeqG4 Proofs.C01.MemExamples Proofs.C01.AsyncMem Proofs.C01.AliasedPorts.
 
 (* an unsigned net used as address compares like its value *)
 Theorem C01_mem_index_net : forall env n, okn env n -> idx_is env (rid n) (getv env (fst n)).
@@ -186,6 +186,26 @@ Example C01_seq_nonvacuous :
     = ([[0]; [0]; [5]], true).
 Proof. exact ex_mem_ok. Qed.
 
+(* ================================================================ finding `shared-module-aliased-ports` (known_findings/C01.json), machine-checked
+   (placed in this file for the session-5 extension; it concerns the composition theorems of Properties/C01Compose.v).
+   alias_design = the text /repo emits for  Add(x,x,r1); Add(a,b,r2)  (4-bit): both instances share module Add4, rendered from the FIRST
+   instance, whose two input ports sit on one wire, so the shared body is `assign r = b + b + w_ci`.  It elaborates to alias_flat; the
+   kernel netlist of the same py4hw design is Constant 0 / AddCarryIn per instance (regenerated leaves).  On x=3, a=1, b=2 the text shows
+   r2 = 4 and the simulator 3: the conclusion of C01_vsim_compose_noclock is FALSE of this design; its hypothesis match_flat fails
+   (that is how the check reports the finding). *)
+Theorem C01_shared_module_aliased_ports_refuted :
+  elaborate alias_design 10 "Top"%string = inr alias_flat /\
+  net_index (f_nets alias_flat) "clk"%string 0 = None /\
+  legal_steps alias_flat [0%nat; 1%nat; 2%nat] alias_steps /\
+  let kernel := comp_design alias_flat alias_prims [] in
+  let ktrace := map (fun s => map (rd (vals s)) (resolve_names alias_flat ["r1"%string; "r2"%string]))
+                    (run_states kernel (init_poked kernel (reg_st0 []) (reg_pokes [])) (map (kstep alias_flat) alias_steps)) in
+  vsim alias_flat "clk"%string alias_steps ["r1"%string; "r2"%string] = ([[0; 0]; [6; 4]], true) /\
+  ktrace = [[0; 0]; [6; 3]] /\
+  vsim alias_flat "clk"%string alias_steps ["r1"%string; "r2"%string] <> (ktrace, true) /\
+  match_flat alias_prims [] 0 [0%nat; 1%nat; 2%nat] alias_flat = false.
+Proof. exact alias_witness. Qed.
+
 Print Assumptions C01_seq_cycle_compose.
 Print Assumptions C01_seq_powerup_compose.
 Print Assumptions C01_seq_vsim_compose.
@@ -199,3 +219,4 @@ Print Assumptions C01_syncmem_sound.
 Print Assumptions C01_syncmem_history.
 Print Assumptions C01_dualmem_sound.
 Print Assumptions C01_asyncmem_sound.
+Print Assumptions C01_shared_module_aliased_ports_refuted.
